@@ -71,3 +71,14 @@ Proof. exact @unknown_bound_is_error. Qed.
 Print Assumptions C04_unknown_bound_is_error.
 
 (* with the correct label the honest proof is accepted: C01_marlin_complete (props/C01.v) *)
+
+(* Sonic: a commitment presented under a degree bound the verifier key holds no shift element for makes the
+   accumulation fail with UnsupportedDegreeBound (never silently treated as unbounded) *)
+From PC Require Import Schemes.Sonic Proofs.SonicFacts.
+Theorem C04_sonic_unsupported_bound_refused :
+  forall (FO : FieldOps) vk c d cs vs cur chal lhs val nxt,
+    shift_power vk (Some d) = Err EUnsupportedDegreeBound ->
+    forall r, s_acc vk cs vs nxt chal lhs val = Ok r ->
+    exists va rest, s_acc vk ((c, Some d) :: cs) (0 :: vs) cur (nxt :: chal) lhs val = Ok (Err EUnsupportedDegreeBound, va, rest).
+Proof. exact @sonic_unsupported_bound_refused. Qed.
+Print Assumptions C04_sonic_unsupported_bound_refused.
